@@ -243,6 +243,25 @@ def jobs(tier):
             for fix in ([0], [2], [0, 2], [1, 2]):
                 out.append(('ll', 'case_ll', dict(
                     ems=[e], times=[[1.0, 2.5]], fix=fix), {}))
+            if refs.em_nparams(e) >= 2:
+                # a later error parameter fixed while an earlier one is free
+                for fix in ([3], [0, 3]):
+                    out.append(('ll', 'case_ll', dict(
+                        ems=[e], times=[[1.0, 2.5]], fix=fix), {}))
+        for e in refs.ERROR_MODELS:
+            if refs.em_nparams(e) >= 2:
+                # ... also in the second of two outputs, and after a release
+                n1 = refs.em_nparams(e)
+                out.append(('ll', 'case_ll', dict(
+                    ems=['Gaussian', e], times=[[1.0], [0.0, 2.0]],
+                    fix=[2 + 1 + n1 - 1]), {}))
+                out.append(('ll', 'case_ll', dict(
+                    ems=[e, e], times=[[1.0], [0.0, 2.0]],
+                    fix=[3, 2 + n1 + 1]), {}))
+                out.append(('ll', 'case_ll', dict(
+                    ems=[e], times=[[1.0, 2.5]], posterior=False,
+                    history=[('fix', [2, 3]), ('s1',), ('release', [2]),
+                             ('s1',)]), {}))
         out += histories()
         comps = c02.compositions(2, [2])
         sub = ['gaussian', 'lognormal_nc', 'pooled', 'hetero']
